@@ -77,7 +77,7 @@ fn ref_select(db: &Db, s: &Sel) -> Result<RefTable, RefErr> {
         Sel::Table(t) => match t.as_str() {
             "A" => Ok(RefTable { name: Some("A".into()), cols: vec![("x".into(), false), ("y".into(), true)], rows: db.a.clone() }),
             "B" => Ok(RefTable { name: Some("B".into()), cols: vec![("u".into(), false), ("v.w".into(), true)], rows: db.b.clone() }),
-            "C" if db.c.is_some() => Ok(RefTable { name: Some("C".into()), cols: vec![("k".into(), false), ("s".into(), true)], rows: db.c.clone().unwrap() }),
+            "C" if db.c.is_some() => Ok(RefTable { name: Some("C".into()), cols: vec![("k".into(), false), ("g".into(), false), ("s".into(), true)], rows: db.c.clone().unwrap() }),
             _ => Err(RefErr::Err),
         },
         Sel::Wrap { from, cols, cond } => {
@@ -206,7 +206,7 @@ fn col_names(s: &Sel) -> (Option<String>, Vec<String>) {
     match s {
         Sel::Table(t) if t == "A" => (Some("A".into()), vec!["x".into(), "y".into()]),
         Sel::Table(t) if t == "B" => (Some("B".into()), vec!["u".into(), "v.w".into()]),
-        Sel::Table(t) if t == "C" => (Some("C".into()), vec!["k".into(), "s".into()]),
+        Sel::Table(t) if t == "C" => (Some("C".into()), vec!["k".into(), "g".into(), "s".into()]),
         Sel::Table(_) => (None, vec![]),
         Sel::Wrap { from, cols, .. } => {
             let (n, c) = col_names(from);
@@ -458,7 +458,8 @@ fn string_trees() -> Vec<Sel> {
 fn string_db_package(db: &Db, mode: usize) -> Result<Harness, String> {
     let a_cols = vec![ColSpec::new("x", Ty::I16).key(), ColSpec::new("y", Ty::I16).nullable()];
     let b_cols = vec![ColSpec::new("u", Ty::I16).key(), ColSpec::new("v.w", Ty::Str(4)).nullable()];
-    let c_cols = vec![ColSpec::new("k", Ty::I16).key(), ColSpec::new("s", Ty::Str(4)).nullable()];
+    // composite key (k, g): a join on C.k alone meets several rows per value
+    let c_cols = vec![ColSpec::new("k", Ty::I16).key(), ColSpec::new("g", Ty::I16).key(), ColSpec::new("s", Ty::Str(4)).nullable()];
     let b = db.b.clone();
     let c = db.c.clone().unwrap();
     if mode == 4 {
@@ -514,13 +515,25 @@ fn string_db_package(db: &Db, mode: usize) -> Result<Harness, String> {
         }
         5 => {
             // rows inserted with placeholder texts, then updated to the target
-            let ph = |rows: &Vec<Vec<Val>>, tag: &str| -> Vec<Vec<Val>> { rows.iter().map(|r| vec![r[0].clone(), Val::s(&format!("{}{}", tag, r[0].show()).chars().filter(|c| c.is_ascii_alphanumeric()).take(4).collect::<String>())]).collect() };
+            let ph = |rows: &Vec<Vec<Val>>, tag: &str| -> Vec<Vec<Val>> {
+                rows.iter()
+                    .enumerate()
+                    .map(|(i, r)| {
+                        let mut v = r.clone();
+                        let last = v.len() - 1;
+                        v[last] = Val::s(&format!("{}{}", tag, i));
+                        v
+                    })
+                    .collect()
+            };
             ops.push(ins("B", &ph(&b, "b")));
             ops.push(ins("C", &ph(&c, "c")));
-            for (t, col, key, rows) in [("B", "v.w", "u", &b), ("C", "s", "k", &c)] {
-                for r in rows.iter() {
-                    ops.push(Op::Update { table: t.into(), sets: vec![(col.into(), r[1].clone())], cond: Some(E::bin(Bin::Eq, E::col(key), E::Lit(r[0].clone()))) });
-                }
+            for r in b.iter() {
+                ops.push(Op::Update { table: "B".into(), sets: vec![("v.w".into(), r[1].clone())], cond: Some(E::bin(Bin::Eq, E::col("u"), E::Lit(r[0].clone()))) });
+            }
+            for r in c.iter() {
+                let cond = E::bin(Bin::And, E::bin(Bin::Eq, E::col("k"), E::Lit(r[0].clone())), E::bin(Bin::Eq, E::col("g"), E::Lit(r[1].clone())));
+                ops.push(Op::Update { table: "C".into(), sets: vec![("s".into(), r[2].clone())], cond: Some(cond) });
             }
         }
         _ => {
@@ -550,18 +563,31 @@ fn string_join_group(tier: Tier) -> (u64, u64, Vec<(String, String, serde_json::
     let cont = string_contents(tier);
     let trees = string_trees();
     let a_rows = vec![vec![Val::Int(1), Val::Int(2)], vec![Val::Int(2), Val::Null]];
-    let mut jobs: Vec<(usize, usize, usize)> = Vec::new();
+    // C(k, g, s) from the same (key, string) rows: distinct k (g = 1), or the
+    // same k for every row (k = 1, g = 1, 2, ...)
+    let c_variants = |rows: &Vec<Vec<Val>>| -> Vec<Vec<Vec<Val>>> {
+        let distinct: Vec<Vec<Val>> = rows.iter().map(|r| vec![r[0].clone(), Val::Int(1), r[1].clone()]).collect();
+        let repeated: Vec<Vec<Val>> = rows.iter().map(|r| vec![Val::Int(1), r[0].clone(), r[1].clone()]).collect();
+        if rows.len() > 1 {
+            vec![distinct, repeated]
+        } else {
+            vec![distinct]
+        }
+    };
+    let mut jobs: Vec<(usize, Vec<Vec<Val>>, usize)> = Vec::new();
     for ib in 0..cont.len() {
         for ic in 0..cont.len() {
-            for m in 0..MODES.len() {
-                jobs.push((ib, ic, m));
+            for cv in c_variants(&cont[ic]) {
+                for m in 0..MODES.len() {
+                    jobs.push((ib, cv.clone(), m));
+                }
             }
         }
     }
     let results: Vec<(u64, u64, Vec<(String, String, serde_json::Value)>)> = jobs
         .par_iter()
         .map(|(ib, ic, m)| {
-            let db = Db { a: a_rows.clone(), b: cont[*ib].clone(), c: Some(cont[*ic].clone()) };
+            let db = Db { a: a_rows.clone(), b: cont[*ib].clone(), c: Some(ic.clone()) };
             let doc = |t: Option<&Sel>| json!({"kind":"c12-strings","mode":m,"b":db.b,"c":db.c,"tree":t});
             let mut h = match string_db_package(&db, *m) {
                 Ok(h) => h,
@@ -675,7 +701,7 @@ pub fn run(tier: Tier) -> i32 {
     rep.set("must_fail_and_failed", classes[1]);
     rep.set("unspecified_ambiguous_name", classes[2]);
     rep.set("exhaustive", true);
-    rep.set("rule", "every select tree of the tier's family (tables, filters, projections, inner and left joins, self-joins, wrapped joins, joins of joins; join conditions: key equality, key order, nullable = nullable, TRUE, FALSE, NULL, unknown column; unknown tables and columns in every position) x every content of A(x,y) and B(u,v) in the tier's set (thorough: all 16 x 16 contents with <= 2 rows over {null,1,2}), compared with a reference nested-loop evaluator: Ok/Err, column names, rows in order, reported length, nullability of the right side of a left join. distinct_nontrivial = (tree, content) pairs compared row by row. String-join group: joins and filters on string equality / order between B(u, v.w) and C(k, s) (+ projections, self-joins, a join of a join) x table contents over {null,'1','a'} x 7 ways of building the same contents (direct; re-using pool entries freed by a delete, in both table orders, also reopened; an independently encoded file whose pool stores strings twice; placeholders then updates; delete and re-insert)");
+    rep.set("rule", "every select tree of the tier's family (tables, filters, projections, inner and left joins, self-joins, wrapped joins, joins of joins; join conditions: key equality, key order, nullable = nullable, TRUE, FALSE, NULL, unknown column; unknown tables and columns in every position) x every content of A(x,y) and B(u,v) in the tier's set (thorough: all 16 x 16 contents with <= 2 rows over {null,1,2}), compared with a reference nested-loop evaluator: Ok/Err, column names, rows in order, reported length, nullability of the right side of a left join. distinct_nontrivial = (tree, content) pairs compared row by row. String-join group: joins and filters on string equality / order between B(u, v.w) and C(k, g, s) with the composite key (k, g), so that joins on C.k meet several rows per value, (+ projections, self-joins, a join of a join) x table contents over {null,'1','a'} x 7 ways of building the same contents (direct; re-using pool entries freed by a delete, in both table orders, also reopened; an independently encoded file whose pool stores strings twice; placeholders then updates; delete and re-insert)");
     rep.sample(json!({"tree": ts[ts.len() / 2].show()}));
     rep.sample(json!({"tree": ts[ts.len() - 1].show()}));
     rep.finish()
